@@ -36,6 +36,9 @@ PROPS = {
     "C05": planner_prop(["Props/C05.v"], ["C05"], diff_fields={1}),
     "C07": planner_prop(["Props/C07.v"], ["C07"], diff_fields={1}),
     "C08": planner_prop(["Props/C08.v"], ["C08"], diff_fields={1}),
+    "C15": planner_prop(["Props/C15.v"], ["C15"]),
+    "C16": planner_prop(["Props/C16.v"], ["C16"]),
+    "C17": planner_prop(["Props/C17.v"], ["C17"]),
 }
 
 FAMS_QUICK = "table:120,rv:10,so2:6,so3:6,se2:6,se3:5,css:5"
@@ -68,6 +71,9 @@ PLANNER_STAGE_FLAGS = {
     "C05": [("planners", [])],
     "C07": [("planners+histories", ["--misuse"])],
     "C08": [("planners+faults+misuse", ["--faults", "--misuse"])],
+    "C15": [("planners:snapshots", []), ("per-iteration:snapshots", ["--per-iteration"])],
+    "C16": [("per-iteration", ["--per-iteration"])],
+    "C17": [("rrtstar", ["--only-planner", "rrtstar"]), ("rrtstar:obstacle-free", ["--only-planner", "rrtstar", "--free"])],
 }
 
 
